@@ -46,7 +46,7 @@ def subprocess_run(case, hashseed):
         tr.cleanup()
 
 
-def embedded_run(case):
+def embedded_run(case, base_files=()):
     """the same input between two other single-file inputs in one invocation"""
     tr = treeh.TreeRun(case)
     try:
@@ -64,8 +64,8 @@ def embedded_run(case):
         tr.argv = [ddir, a, tr.argv[0], b] + tr.argv[1:]
         ir = tr.run_impl()
         drop = {"zz_other_first.rst", "zz_other_last.rst", "zz_decoy_d1.rst"}
-        if single:
-            drop.add("index.rst")
+        if single or "index.rst" not in base_files:
+            drop.add("index.rst")      # written by the decoy directory only
         ir["outfiles"] = {k: v for k, v in ir["outfiles"].items() if k not in drop}
         return ir
     finally:
@@ -118,7 +118,7 @@ def run(rep, model, tier, seed, broken=()):
                                 b=i2["outfiles"].get(diff[0], b"").decode("utf-8", "replace")[:300] if diff else None)
                     break
         if prob is None and ir["status"] == 0 and tr.out_abs is not None:
-            i3 = embedded_run(base)
+            i3 = embedded_run(base, set(ir["outfiles"]))
             nvar += 1
             rep.dist("det:variant embedded between other inputs")
             if i3["status"] != 0 or i3["outfiles"] != ir["outfiles"]:
@@ -138,6 +138,46 @@ def run(rep, model, tier, seed, broken=()):
             if nbad <= 3:
                 rep.violation(dict(kind="determinism: " + prob["what"], diff=prob, argv=tr.argv,
                                    case=treeh.case_json(base), tree=ct.describe(base)))
+    # files of one directory that map to the SAME page (extension matched case-insensitively:
+    # helpers.cmake / helpers.CMAKE).  Which one wins is fixed by the sorted processing order, so
+    # the generated files must still not depend on the listing order (implementation-only check;
+    # such trees are outside the hypotheses of the C13/C15 theorems).
+    ncoll = 6 if tier == "quick" else 120
+    for i in range(ncoll):
+        stem = rng.choice(["helpers", "a", "util", "Upper"])
+        exts = rng.sample([".cmake", ".CMAKE", ".CMake", ".cMaKe"], 2)
+        files = [dict(name=stem + e, kind="f", content=("#[[[\n# from %s\n#]]\nfunction(f_%d a)\nendfunction()\n" % (stem + e, j)).encode())
+                 for j, e in enumerate(exts)]
+        other = [dict(name="z_other.cmake", kind="f", content=b"set(x y)\n"),
+                 dict(name="first.cmake", kind="f", content=b"macro(m)\nendmacro()\n")]
+        sub = dict(name="lib", kind="d", children=files + [dict(name="keep.cmake", kind="f", content=b"set(k v)\n")])
+        tree = other + ([sub] if rng.random() < 0.6 else files)
+        case = dict(tree=tree, out="abs", recursive=True, auto_exclude=rng.random() < 0.5,
+                    cwd="parent", spelling="abs", location="work")
+
+        def ordered(children, rev):
+            out = [dict(c, children=ordered(c["children"], rev)) if c["kind"] == "d" else c for c in children]
+            return sorted(out, key=lambda c: c["name"], reverse=rev)
+        t1, i1 = run_variant(dict(case, tree=ordered(tree, False)))
+        t2, i2 = run_variant(dict(case, tree=ordered(tree, True)))
+        t3, i3 = run_variant(dict(case, tree=sorted(ordered(tree, False), key=lambda c: c["name"].swapcase())))
+        nvar += 3
+        rep.dist("det:variant colliding page names x listing order")
+        rep.count_case(json.dumps(["collide", stem, exts, i]), True)
+        for other_run, label in ((i2, "descending"), (i3, "swapcase")):
+            if other_run["status"] != i1["status"] or other_run["outfiles"] != i1["outfiles"]:
+                diff = sorted(k for k in set(i1["outfiles"]) | set(other_run["outfiles"])
+                              if i1["outfiles"].get(k) != other_run["outfiles"].get(k))
+                nbad += 1
+                if nbad <= 3:
+                    rep.violation(dict(kind="determinism: generated files depend on the directory listing order "
+                                            "(two inputs of one directory map to the same page)",
+                                       diff=dict(files=diff[:5], listing=label,
+                                                 a=i1["outfiles"].get(diff[0], b"").decode("utf-8", "replace")[:300] if diff else None,
+                                                 b=other_run["outfiles"].get(diff[0], b"").decode("utf-8", "replace")[:300] if diff else None),
+                                       argv=t1.argv, case=treeh.case_json(dict(case, tree=ordered(tree, False))),
+                                       tree=ct.describe(case)))
+                break
     rep.coverage["disagreements"] = nbad
     rep.coverage["variations_run"] = nvar
     rep.coverage["correspondence"]["base run vs Model.Walk.document (bytes)"] = len(cases)
